@@ -640,7 +640,7 @@ def nontrivial(steps):
     return False
 
 
-BUILDS = [("plain", None, None), ("effects", ["effects"], "effects")]
+BUILDS = [("plain", None, None), ("effects", ["effects", "cookie"], "effects")]
 
 
 class WiredOracle:
